@@ -17,7 +17,7 @@ LEVEL = 'exploration'
 ASSUME = [
     'histories of length <= H from the empty circuit, at most 4 nodes alive (or: first step = one of 3 small netlists built through the bench front end, then H-1 edits, at most 9 nodes); operations: add cell, add fork, add line (implicit pins), add line (explicit free pins, pin numbers < 3), remove line, '
     'remove unconnected node, eliminate_1to1_forks, substitute (4 implementations incl. one that ignores an input), copy, pickle round trip',
-    'well-formed use as in the statement: explicit pins only on free positions; explicit output pins of forks only at the first free position (fork outputs are gap-free by contract); nodes removed only when unconnected; '
+    'well-formed use as in the statement: explicit pins only on free positions; explicit output pins of forks only at the first free position (fork outputs are gap-free by contract); nodes removed only when unconnected; a fork has a single driver at pin 0; '
     'substitute only on non-port cells whose connected pins fit the implementation and at most once per instance name (derived node names must stay unique - documented precondition)',
     'exhaustive within the bound; the solver only decides the feasibility of explicit pin choices',
 ]
@@ -100,6 +100,7 @@ def apply_op(eng, c, step, trace):
         Node(c, f'f{step}'); trace.append(('add fork', f'f{step}'))
     elif op == 'line':
         d = nodes[eng.choose(len(nodes))]; r = nodes[eng.choose(len(nodes))]
+        if r.kind == '__fork__' and any(l is not None for l in r.ins): raise Infeasible()      # a fork has one driver (structural contract of forks)
         Line(c, d, r); trace.append(('add line', nn(d), nn(r)))
     elif op == 'xline':
         d = nodes[eng.choose(len(nodes))]; r = nodes[eng.choose(len(nodes))]
@@ -110,6 +111,9 @@ def apply_op(eng, c, step, trace):
         for p, l in enumerate(r.ins):
             if l is not None: eng.assume(rp != p)
         if d.kind == '__fork__': eng.assume(dp == d.outs.free_index())
+        if r.kind == '__fork__':
+            if any(l is not None for l in r.ins): raise Infeasible()      # a fork has one driver ...
+            eng.assume(rp == 0)                                                 # ... at pin 0
         dpv = eng.pick(dp, 0, 3); rpv = eng.pick(rp, 0, 3)
         Line(c, (d, dpv), (r, rpv)); trace.append(('add line', (nn(d), dpv), (nn(r), rpv)))
     elif op == 'rmline':
